@@ -213,6 +213,11 @@ def step (s : St) (w : List String) : St × String :=
     let (q, p) := qStep false s.q .done
     ({ s with q := q }, if p then "panic " ++ showQ q else showQ q)
   | ["qcrash"] => (s, showCrash s.q)
+  | ["qrestart"] =>
+    -- FileQueue.Start on a copy of the directory: what start-up hands to the writer again (the state is not changed)
+    let q := qRestart false s.q
+    let w := q.pending.foldl (fun acc r => acc ++ " " ++ recStr r) ""
+    (s, s!"idx=[{showIdx q.index}] redelivered={q.pending.length}{w}")
   | ["steps"] => (s, String.intercalate " " commitSteps)
   | ["ctxproto"] =>
     -- the context.data protocol the model is about: `ctxCrash` never changes `main` except by the rename,
